@@ -33,7 +33,7 @@ func parseAckFrequencyFrame(b []byte, _ protocol.Version) (*AckFrequencyFrame, i
 	}
 	// prevents overflows if the peer sends a very large value
 	maxAckDelay := time.Duration(mad) * time.Microsecond
-	if maxAckDelay < 0 {
+	if maxAckDelay < 0 || mad > math.MaxInt64/uint64(time.Microsecond) {
 		maxAckDelay = math.MaxInt64
 	}
 	b = b[l:]
